@@ -189,6 +189,104 @@ def run(ctx: common.Run):
                 {'lines': [{'channel': repr(ch), 'params': ps}], 'impl_out': [repr([np.round(k, 9).tolist() for k in got])],
                  'spec_out': [repr([np.round(k, 9).tolist() for k in want])], 'theorem_or_correspondence': f'GateDocs.{name}'})
     check_sized_families(ctx, cirq, n)
+    check_docstring_matrices(ctx, cirq, cirq_google, cirq_ionq)
+
+
+def docstring_builders(cirq, cirq_google, cirq_ionq):
+    """class -> (docstring symbol -> constructor keyword, kind of value).  EigenGate subclasses not listed use t=exponent, s=global_shift."""
+    E, S, R, P = 'exp', 'shift', 'rad', 'prob'
+    return {
+        cirq.Rx: {'t': ('rads', R)}, cirq.Ry: {'t': ('rads', R)}, cirq.Rz: {'t': ('rads', R)},
+        cirq.PhasedXPowGate: {'t': ('exponent', E), 'p': ('phase_exponent', E)},
+        cirq.PhasedXZGate: {'x': ('x_exponent', E), 'z': ('z_exponent', E), 'a': ('axis_phase_exponent', E)},
+        cirq.FSimGate: {'theta': ('theta', R), 'phi': ('phi', R)},
+        cirq.PhasedFSimGate: {'theta': ('theta', R), 'zeta': ('zeta', R), 'chi': ('chi', R), 'gamma': ('gamma', R), 'phi': ('phi', R)},
+        cirq.PhasedISwapPowGate: {'t': ('exponent', E), 'p': ('phase_exponent', E)},
+        cirq_ionq.GPIGate: {'phi': ('phi', E)}, cirq_ionq.GPI2Gate: {'phi': ('phi', E)},
+        cirq_ionq.MSGate: {'phi_0': ('phi0', E), 'phi_1': ('phi1', E), 'theta': ('theta', E)},
+        cirq_ionq.ZZGate: {'theta': ('theta', E)},
+        cirq.AmplitudeDampingChannel: {'gamma': ('gamma', P)}, cirq.PhaseDampingChannel: {'gamma': ('gamma', P)},
+        cirq.GeneralizedAmplitudeDampingChannel: {'p': ('p', P), 'gamma': ('gamma', P)},
+        cirq.BitFlipChannel: {'p': ('p', P)}, cirq.PhaseFlipChannel: {'p': ('p', P)},
+    }
+
+
+def check_docstring_matrices(ctx, cirq, cirq_google, cirq_ionq):
+    """The matrices written in the class docstrings (LaTeX, with their prefactors and `where` shorthands), evaluated at
+    random parameter values, are what cirq.unitary (cirq.kraus for channels) reports.  A matrix the translator cannot read is counted
+    as unparsed; a parameter-free matrix of a parametrized gate (an example, a named special case) is skipped."""
+    import inspect
+
+    from harness import docmat
+
+    rng = ctx.substream('docstrings')
+    builders = docstring_builders(cirq, cirq_google, cirq_ionq)
+    seen = set()
+    for mod in (cirq, cirq_google, cirq_ionq):
+        for name in sorted(dir(mod)):
+            cls = getattr(mod, name)
+            if not inspect.isclass(cls) or not issubclass(cls, cirq.Gate) or cls in seen:
+                continue
+            seen.add(cls)
+            doc = cls.__dict__.get('__doc__') or ''
+            entries = docmat.matrices(doc)
+            if not entries:
+                continue
+            spec = builders.get(cls)
+            if spec is None and issubclass(cls, cirq.EigenGate) and (cls.__init__ is cirq.EigenGate.__init__ or cls in (cirq.XPowGate, cirq.ZPowGate)):
+                spec = {'t': ('exponent', 'exp'), 's': ('global_shift', 'shift')}
+            if spec is None:
+                ctx.count('docstring', f'no-builder:{cls.__name__}')
+                continue
+            spec = {k: v for k, v in spec.items() if k not in docmat.definitions(doc)}
+            if 's' in spec and spec['s'][0] == 'global_shift' and 'global_shift=s' not in doc:
+                del spec['s']   # the docstring describes the gate with its default global shift
+            is_channel = not issubclass(cls, cirq.EigenGate) and 'Channel' in cls.__name__
+            points = []
+            for _ in range(6):
+                points.append({k: (gen_param(rng, kind) if kind != 'prob' else round(rng.uniform(0.05, 0.95), 3)) for k, (kw, kind) in spec.items()})
+            results = []   # per entry: list of values or None
+            for e in entries:
+                vals = [docmat.evaluate(doc, e, pt) for pt in points]
+                results.append(None if any(v is None for v in vals) else vals)
+            for pi, pt in enumerate(points):
+                try:
+                    g = cls(**{spec[k][0]: v for k, v in pt.items()})
+                    want_all = list(cirq.kraus(g)) if is_channel else [cirq.unitary(g)]
+                except Exception as ex:  # noqa: BLE001
+                    ctx.count('docstring', f'build-error:{cls.__name__}:{type(ex).__name__}')
+                    break
+                if is_channel:
+                    if any(r is None for r in results) or len(results) != len(want_all):
+                        ctx.count('docstring', f'unparsed:{cls.__name__}')
+                        break
+                    pairs = [(k, results[k][pi], want_all[k]) for k in range(len(results))]
+                else:
+                    pairs = []
+                    for k, r in enumerate(results):
+                        if r is None:
+                            if pi == 0:
+                                ctx.count('docstring', f'unparsed:{cls.__name__}[{k}]')
+                            continue
+                        if spec and all(np.allclose(r[0], v) for v in r[1:]):
+                            if pi == 0:
+                                ctx.count('docstring', f'parameter-free-skipped:{cls.__name__}[{k}]')
+                            continue
+                        if r[pi].shape != want_all[0].shape:
+                            if pi == 0:
+                                ctx.count('docstring', f'other-shape-skipped:{cls.__name__}[{k}]')
+                            continue
+                        pairs.append((k, r[pi], want_all[0]))
+                for k, got_doc, want in pairs:
+                    ctx.count('check', 'docstring-matrix')
+                    ctx.count('docstring', f'checked:{cls.__name__}')
+                    ctx.case(['docstring', cls.__name__, k, sorted(pt.items())], True)
+                    if got_doc.shape != want.shape or not np.allclose(got_doc, want, atol=1e-9):
+                        ctx.report_witness(f'docstring:{cls.__name__}', f'the matrix written in the docstring of {cls.__name__} (matrix #{k}) is not the matrix the gate reports',
+                                           {'lines': [{'class': cls.__name__, 'matrix_index': k, 'parameters': pt, 'docstring_rows': entries[k]['rows'], 'prefactor': entries[k]['prefix']}],
+                                            'impl_out': [repr(np.round(want, 8).tolist())], 'spec_out': [repr(np.round(got_doc, 8).tolist())],
+                                            'theorem_or_correspondence': 'docstring closed form (evaluated from the source text)'})
+                        break
 
 
 def superop(ks):
